@@ -133,7 +133,7 @@ def gen_plan(tape, cfg):
     plan = {"symbols": symbols, "ops": ops,
             "assumption_style": tape.choice(["z3", "native"], "assumption_style"),
             "policy": tape.choice(["uniform", "first"], "policy")}
-    if tape.chance(1, 40, "backend.portfolio"):
+    if tape.chance(1, 80, "backend.portfolio"):
         # a second concrete tracking solver: the real Portfolio (its proxies differ: _reset_assertions
         # is not wrapped in clear_pending_pop) over two simulated member processes
         plan["backend"] = "portfolio"
